@@ -149,6 +149,8 @@ def run(facts, rep):
     inst = 'HomologyCalc::process_snf|d_out restricted to the complement used by Q'
     if restr is not None and restr == q12:
         rep.ok('E19.H2-restriction', inst, 'pinv1[cols %s]' % list(restr[2]))
+    elif restr is None:
+        rep.indet('E19.H2: the restriction of d_out in process_snf was not read')
     else:
         rep.violation('E19.H2-restriction', inst, 'd_out is composed with %s but the coordinate map uses %s' % (restr, q12), where=ps.where())
     inst = 'HomologyCalc::process_snf|requested transforms = used transforms'
@@ -157,6 +159,8 @@ def run(facts, rep):
     ok3 = (flags.get('s1') == ['arg3', '1', '0', '0'] and flags.get('s2') == ['0', '0', 'arg3', 'arg3'] and used1 == {'p', 'pinv'} and used2 == {'q', 'qinv'})
     if ok3:
         rep.ok('E19.H3-flags', inst, 's1 %s uses %s; s2 %s uses %s' % (flags.get('s1'), sorted(used1), flags.get('s2'), sorted(used2)))
+    elif set(flags) != {'s1', 's2'} or any(len(v) != 4 or not all(x in ('0', '1', 'arg3') for x in v) for v in flags.values()):
+        rep.indet('E19.H3: snf flags of process_snf outside the recognised fragment: %s' % flags)
     else:
         rep.violation('E19.H3-flags', inst, 'snf flags %s but the assembly unwraps s1.%s / s2.%s: an unrequested transform is None and unwrap() panics' % (flags, sorted(used1), sorted(used2)), where=ps.where())
     # H4
